@@ -35,7 +35,7 @@ type CaseData struct {
 	Kinds []string `json:"kinds"`
 }
 
-var allKinds = []string{"proxy", "structof", "codec", "smallint", "sweep", "import", "sharedcode", "clone"}
+var allKinds = []string{"proxy", "structof", "codec", "smallint", "sweep", "import", "sharedcode", "clone", "mutate"}
 
 type Mismatch struct {
 	Class string `json:"class"`
@@ -155,6 +155,8 @@ type env struct {
 	idle       *cloneParent
 	running    *cloneParent
 	starting   *cloneParent
+	mutCode    *compiler.Code // kind mutate: one compiled code run by all VMs
+	mutParent  *mutParent     // kind mutate: the VM whose clones call work()
 	gate       chan struct{}
 	gateOnce   sync.Once
 	setupErr   string
@@ -329,6 +331,15 @@ func newEnv(c CaseData, dir string, kinds map[string]bool) *env {
 			fail("shared code parse", err)
 		} else if e.sharedCode, err = compiler.Compile(ast, cfg.CompilerOpts()...); err != nil {
 			fail("shared code compile", err)
+		}
+	}
+	if kinds["mutate"] {
+		var err error
+		if e.mutCode, _, err = compileMutCode(map[string]any{"gid": ""}, "\nwork(gid)\n"); err != nil {
+			fail("mutate shared code", err)
+		}
+		if e.mutParent, err = newMutParent(); err != nil {
+			fail("mutate clone parent", err)
 		}
 	}
 	if kinds["clone"] {
@@ -650,6 +661,10 @@ func planJobs(c CaseData) []job {
 				})
 				return append(lines, goState(gl["ctr"])), 1
 			}})
+		case "mutate":
+			mr := mon.NewRand(c.Seed).Split("mutate")
+			stag := tag + "m"
+			jobs = append(jobs, mutateJobs(c, tag, mr.Perm, structShape(mr.Split("shape"), stag), stag)...)
 		case "clone":
 			jobs = append(jobs, job{kind: "clone", path: "clone:parent-idle", run: func(e *env, g int) ([]string, int) {
 				if e.idle == nil {
@@ -806,6 +821,19 @@ func worker(kind string, data json.RawMessage) any {
 		}
 		if n >= 2 {
 			o.Overlapped[jb.path] = n
+		}
+	}
+
+	// an evaluation that sees a key or element carrying another evaluation's id: reported whatever
+	// the sequential reference says (it runs in the same, by then possibly polluted, process)
+	for g := 0; g < N; g++ {
+		for j := range jobs {
+			for i, l := range conc[g][j] {
+				if strings.Contains(l, "FOREIGN-EDIT") && len(o.Mismatches) < 20 {
+					o.Mismatches = append(o.Mismatches, Mismatch{Class: "foreign-edit-visible", Kind: jobs[j].kind, Path: jobs[j].path, G: g, Line: i, Conc: l, Seq: "(not applicable: the line itself shows an edit made by another evaluation)"})
+					break
+				}
+			}
 		}
 	}
 
